@@ -43,6 +43,7 @@ func checkC18(c *core.Ctx) error {
 	c18LikeNamed(c)
 	c18NamedKeys(c)
 	c18DecoderComplete(c)
+	c18CrossedFields(c)
 	c18Decoders(c)
 	return nil
 }
@@ -2091,4 +2092,108 @@ func c18DecoderComplete(c *core.Ctx) {
 		})
 	}
 	c.Analysed["field_by_field_decoders"] = n
+}
+
+// ---------------------------------------------------------------------------
+// R9: no crossed pair between wire fields and receiver fields
+//
+// A codec moves values between a wire struct (`struct{Values ...; Rows int; Cols int}`) and the receiver's fields. If
+// two moves are crossed — the wire field Rows goes to (comes from) the receiver field cols while Cols goes to rows —
+// every length test still passes and the object is silently transposed or otherwise permuted. The rule looks only at
+// pairs: field f1 is named like wire field W2 and f2 like W1 (case-insensitive, plural/singular and a Max/Offset suffix
+// ignored), with W1 != W2. A single unusual name (n for Length) is never reported.
+func c18CrossedFields(c *core.Ctx) {
+	c.Rule("C18.R9", "JSON codecs do not cross like-named fields: no pair (wire W1 <-> field named like W2, wire W2 <-> field named like W1)", 30)
+	stem := func(s string) string {
+		s = strings.ToLower(s)
+		for _, suf := range []string{"max", "offset"} {
+			s = strings.TrimSuffix(s, suf)
+		}
+		return strings.TrimSuffix(s, "s")
+	}
+	for _, p := range c.LibPkgs() {
+		if p.PkgPath != "github.com/pbenner/autodiff" {
+			continue
+		}
+		info := p.TypesInfo
+		pkg := p
+		core.EachFunc(p, func(_ *ast.File, fd *ast.FuncDecl) {
+			if (fd.Name.Name != "UnmarshalJSON" && fd.Name.Name != "MarshalJSON") || fd.Recv == nil || len(fd.Recv.List) == 0 || len(fd.Recv.List[0].Names) == 0 {
+				return
+			}
+			recv := info.Defs[fd.Recv.List[0].Names[0]]
+			type move struct {
+				wire, field string
+				pos         token.Pos
+			}
+			var moves []move
+			recvField := func(e ast.Expr) string {
+				if sel, ok := ast.Unparen(e).(*ast.SelectorExpr); ok {
+					if id, ok := ast.Unparen(sel.X).(*ast.Ident); ok && info.Uses[id] == recv {
+						return sel.Sel.Name
+					}
+				}
+				return ""
+			}
+			wireField := func(e ast.Expr) string {
+				if sel, ok := ast.Unparen(e).(*ast.SelectorExpr); ok {
+					if id, ok := ast.Unparen(sel.X).(*ast.Ident); ok && info.Uses[id] != recv {
+						if v, ok := info.Uses[id].(*types.Var); ok {
+							if _, isStruct := v.Type().Underlying().(*types.Struct); isStruct {
+								return sel.Sel.Name
+							}
+						}
+					}
+				}
+				return ""
+			}
+			ast.Inspect(fd.Body, func(x ast.Node) bool {
+				switch v := x.(type) {
+				case *ast.AssignStmt:
+					if len(v.Lhs) == len(v.Rhs) {
+						for i := range v.Lhs {
+							if f, w := recvField(v.Lhs[i]), wireField(v.Rhs[i]); f != "" && w != "" {
+								moves = append(moves, move{w, f, v.Pos()})
+							}
+							if w, f := wireField(v.Lhs[i]), recvField(v.Rhs[i]); f != "" && w != "" {
+								moves = append(moves, move{w, f, v.Pos()})
+							}
+						}
+					}
+				case *ast.CompositeLit:
+					if _, ok := v.Type.(*ast.StructType); ok {
+						for _, el := range v.Elts {
+							if kv, ok := el.(*ast.KeyValueExpr); ok {
+								if k, ok := kv.Key.(*ast.Ident); ok {
+									if f := recvField(kv.Value); f != "" {
+										moves = append(moves, move{k.Name, f, kv.Pos()})
+									}
+								}
+							}
+						}
+					}
+				}
+				return true
+			})
+			cons := c.FuncName(pkg, fd)
+			bad := ""
+			var bpos token.Pos
+			for i := range moves {
+				for j := i + 1; j < len(moves); j++ {
+					a, b := moves[i], moves[j]
+					if a.wire == b.wire || stem(a.wire) == stem(b.wire) {
+						continue
+					}
+					if stem(a.field) == stem(b.wire) && stem(b.field) == stem(a.wire) {
+						bad = a.wire + " <-> " + a.field + " and " + b.wire + " <-> " + b.field
+						bpos = a.pos
+					}
+				}
+			}
+			if len(moves) >= 2 {
+				c.Check(bad == "", "C18.R9", cons, "no crossed pair of like-named fields", bpos,
+					"the codec crosses two fields ("+bad+"): all length tests still pass, but the decoded object is not the encoded one (transposed dimensions or swapped components)")
+			}
+		})
+	}
 }
